@@ -158,10 +158,31 @@ def r3(cx):
         sinks.append(("truncate_before", x))
     for x in M.find_calls(b, lambda c: c == "ingester::wal::persist_flushed_seq"):
         sinks.append(("persist_flushed_seq", x))
-    for x in M.find_calls(b, lambda c: c.endswith("::store") and "atomic" in c):
-        if M.has_field(M.operand_origins(b, b.term(x)["args"][0], at=(x, M.T)), None, ".last_flushed_seq"):
-            sinks.append(("last_flushed_seq.store", x))
-    cx.floor("flushed-mark sinks in flush_batches", len(sinks), 3, ck)
+    def _stores_mark(body):
+        return [x for x in M.find_calls(body, lambda c: c.endswith("::store") and "atomic" in c)
+                if M.has_field(M.operand_origins(body, body.term(x)["args"][0], at=(x, M.T)), None, ".last_flushed_seq")]
+    for x in _stores_mark(b):
+        sinks.append(("last_flushed_seq.store", x))
+    kinds = {n for n, _ in sinks}
+    # a local helper that may truncate / persist / advance the mark counts as that effect (extract-method refactors)
+    eff = {"truncate_before": {WAL + "truncate_before"}, "persist_flushed_seq": {"ingester::wal::persist_flushed_seq"}}
+    reach = {k: cx.prog.may_reach(v, within_prefix="ingester::Ingester::") for k, v in eff.items()}
+    storers = set()
+    for k in cx.prog.fn_keys(r"^ingester::Ingester::[a-z_0-9]+$"):
+        hb = cx.prog.code_body(k)
+        if hb is not None and k not in (FLUSH, I + "ensure_wal") and _stores_mark(hb):
+            storers.add(k)
+    reach["last_flushed_seq.store"] = cx.prog.callers_closure(storers) if storers else set()
+    skip = {FLUSH, I + "ensure_wal"}
+    for x in b.calls_blocks() if hasattr(b, "calls_blocks") else [bi for bi, _ in b.calls()]:
+        cal = b.term(x)["callee"]
+        if "::{closure" in cal or cal in skip or not cal.startswith("ingester::Ingester::"):
+            continue
+        ks = sorted(k for k, s in reach.items() if cal in s)
+        if ks:
+            sinks.append(("helper:" + cal.rsplit("::", 1)[1], x))
+            kinds |= set(ks)
+    cx.floor("flushed-mark effects reached from flush_batches (truncate, persist, in-memory mark)", len(kinds & {"truncate_before", "persist_flushed_seq", "last_flushed_seq.store"}), 3, ck)
     for name, x in sinks:
         okp = ps and b.dominated_by_edges(x, ps)
         okr = rs and b.dominated_by_edges(x, rs)
